@@ -43,7 +43,12 @@ var scratchSeq int
 
 func scratchDir(tag string) string {
 	scratchSeq++
-	d := fmt.Sprintf("/dev/shm/verif-c01-%d-%s-%d", os.Getpid(), tag, scratchSeq)
+	root := os.Getenv("C01_SCRATCH") // set by the parent, which removes it when the run ends (also after a worker crash)
+	if root == "" {
+		root = fmt.Sprintf("/dev/shm/verif-c01-%d", os.Getpid())
+	}
+	_ = os.MkdirAll(root, 0o755)
+	d := fmt.Sprintf("%s/%d-%s-%d", root, os.Getpid(), tag, scratchSeq)
 	_ = os.RemoveAll(d)
 	return d
 }
